@@ -10,9 +10,10 @@ Follows the grammar comment at the top of numbat/src/parser.rs for the levels it
   power      := call ( "^" "-"? power )?
   call       := primary ( "(" args ")" )*
   primary    := number | string | identifier | "(" expression ")"
-Anything else (conditionals, comparisons, lists, structs, `per`, `!`) raises Unsupported: the
+  condition  := "if" conversion "then" condition "else" condition ;  comparison := term (< > <= >=) term
+Anything else (lists, structs, `per`, `!`, logical operators) raises Unsupported: the
 translator must fail loudly rather than guess.
-AST: ("num", Fraction) ("str", s) ("id", name) ("call", name, [args]) ("bin", op, a, b) ("neg", a) ("conv", a, b)
+AST: ("if", c, a, b) ("cmp", op, a, b) ("num", Fraction) ("str", s) ("id", name) ("call", name, [args]) ("bin", op, a, b) ("neg", a) ("conv", a, b)
 """
 import re
 from fractions import Fraction
@@ -26,7 +27,7 @@ TOKEN_RE = re.compile(r"""
     (?P<ws>[ \t]+) |
     (?P<num>[0-9][0-9_]*(?:\.[0-9_]*)?(?:[eE][+-]?[0-9][0-9_]*)?) |
     (?P<str>"[^"]*") |
-    (?P<op>\|>|->|→|➞|\^|\+|-|\*|×|·|⋅|/|÷|\(|\)|,) |
+    (?P<op>\|>|->|→|➞|<=|>=|≤|≥|<|>|\^|\+|-|\*|×|·|⋅|/|÷|\(|\)|,) |
     (?P<id>[^\W0-9][\w]*|[°%′″_][\w]*)
 """, re.X | re.U)
 
@@ -44,6 +45,8 @@ def tokenize(src):
         t = m.group(k)
         if k == "id" and t == "to":
             k, t = "op", "->"
+        if k == "id" and t in ("if", "then", "else"):
+            k = "kw"
         toks.append((k, t))
     toks.append(("end", ""))
     return toks
@@ -74,7 +77,7 @@ class Parser:
             raise Unsupported("expected %r, found %r" % (op, self.peek()))
 
     def expression(self):
-        e = self.conversion()
+        e = self.condition()
         while self.accept("|>"):
             c = self.call()
             if c[0] == "id":
@@ -85,10 +88,32 @@ class Parser:
                 raise Unsupported("|> needs a function")
         return e
 
+    def condition(self):
+        # condition ::= "if" conversion "then" condition "else" condition | conversion
+        if self.peek() == ("kw", "if"):
+            self.next()
+            c = self.conversion()
+            if self.next() != ("kw", "then"):
+                raise Unsupported("expected then")
+            a = self.condition()
+            if self.next() != ("kw", "else"):
+                raise Unsupported("expected else")
+            b = self.condition()
+            return ("if", c, a, b)
+        return self.conversion()
+
     def conversion(self):
-        e = self.term()
+        e = self.comparison()
         while self.accept("->", "→", "➞"):
-            e = ("conv", e, self.term())
+            e = ("conv", e, self.comparison())
+        return e
+
+    def comparison(self):
+        e = self.term()
+        o = self.accept("<", ">", "<=", ">=", "≤", "≥")
+        if o:
+            o = {"≤": "<=", "≥": ">="}.get(o, o)
+            return ("cmp", o, e, self.term())
         return e
 
     def term(self):
